@@ -41,9 +41,40 @@ func main() {
 	only := flag.String("only", "", "print only obligations whose key contains this (replay)")
 	verbose := flag.Bool("v", false, "print every obligation")
 	dump := flag.String("calls", "", "debug: pkg:Func — print the callee ids and argument descriptions of a function and exit")
+	dumpParams := flag.Bool("dump-params", false, "write checker/param_names.json: the parameter names of every function in the packages the rules load (the baseline descriptions are written against)")
 	flag.Parse()
 	if *list {
 		fmt.Println(strings.Join(rules.All(), " "))
+		return
+	}
+	if *dumpParams {
+		pk := map[string]bool{}
+		for _, p := range rules.All() {
+			for _, q := range rules.Get(p).Pkgs {
+				switch q {
+				case "tg", "mt", "tg/e2e", "tgtrace", "gen/example", "tdp/internal/schema":
+				default:
+					pk[q] = true
+				}
+			}
+		}
+		var list []string
+		for q := range pk {
+			list = append(list, q)
+		}
+		sort.Strings(list)
+		c := engine.NewCtx("dbg", "quick")
+		os.Remove(filepath.Join(c.VerifDir, "checker", "param_names.json"))
+		if err := c.Load(list...); err != nil {
+			fmt.Println(err)
+			os.Exit(2)
+		}
+		b, _ := json.MarshalIndent(c.ParamNames(), "", " ")
+		if err := os.WriteFile(filepath.Join(c.VerifDir, "checker", "param_names.json"), b, 0o644); err != nil {
+			fmt.Println(err)
+			os.Exit(2)
+		}
+		fmt.Printf("param_names.json: %d functions of %d packages\n", len(c.ParamNames()), len(list))
 		return
 	}
 	if *dump != "" {
